@@ -710,3 +710,6 @@ def run(c, facts):
     c.run(r3_sorted, facts)
     c.run(r4_invalid, facts)
     c.run(r5_join_agree, facts)
+
+
+EXPLANATION += ' (R15) PIPELINE-WHOLE (C07.R22 run here): compile() has no successful return that skips a phase, whatever the module contains.'
